@@ -9,7 +9,9 @@ truncated signature - refused, never data."""
 import os
 import pathlib
 
-from .. import core, env, kdriver, specs
+import numpy as np
+
+from .. import core, env, gen, kdriver, specs
 from .. import tdfref as R
 
 PROP = "C17"
@@ -281,7 +283,69 @@ def check_open(directory, acc):
     acc.sample({"open": list(cases) + ["replaced-by-nontdf", "replaced-by-empty"]}, 1)
 
 
+ACTIVITIES = ("numbers", "capture", "small-table", "failed-new")
+
+
+def _activity(name, directory):
+    """Things a process may have done with the library before it creates its first file."""
+    n = specs.lib()
+    if name == "numbers":
+        # the numbers Tdf.new writes into a header and an empty table (1, 14, 4096, 0, 64, 288, 4), met
+        # before as floats, ints, bools and numpy scalars in other fields
+        for v in (1.0, 14.0, 4096.0, 0.0, 64.0, 288.0, 4.0, True, False):
+            sp = gen.events([gen.mk_event("e", 1, 2)], startTime=np.float32(v))
+            sp["events"][0]["values"][:] = np.float32(v)
+            specs.lib_decode(sp["type"], sp["format"], specs.lib_encode(specs.build(sp)))
+        for f in (1, 14, 4096, 64, 288):
+            sp = gen.emg(3, [(f % 32768, gen.mk_emgsig(3, (True, False, True), "s"))], frequency=f)
+            specs.lib_encode(specs.build(sp))
+            specs.lib_encode(specs.build(gen.data3d(f if f < 100 else 3, [], frequency=f, startTime=np.float32(f))))
+    elif name == "capture":
+        with n.tdf.Tdf(env.CAPTURE) as f:
+            for b in f.blocks:
+                b.nBytes
+    elif name == "small-table":
+        p = os.path.join(directory, "small.tdf")
+        with open(p, "wb") as f:
+            f.write(R.build_file(3, [kdriver.known_record(R.T_EVENTS, 0)]))
+        with n.tdf.Tdf(p).allow_write() as f:
+            f.add_block(kdriver.make_block(R.T_EMG, 0))
+            f.remove_block(n.block.BlockType(R.T_EVENTS))
+        os.unlink(p)
+    elif name == "failed-new":
+        p = os.path.join(directory, "there.tdf")
+        make_target(p, "tdf")
+        try:
+            n.tdf.Tdf.new(p)
+        except Exception:  # noqa: BLE001
+            pass
+        os.unlink(p)
+    else:
+        raise ValueError(name)
+
+
+def _activity_shard(name):
+    """Each activity runs in a process of its own (every shard does), so the Tdf.new that follows is the
+    first one after it."""
+    acc = core.Acc()
+    directory = env.scratch_dir("c17a")
+    _activity(name, directory)
+    for as_path in (False, True):
+        acc.n["states"] += 1
+        acc.n["evaluations"] += 1
+        acc.n["nontrivial"] += 1
+        try:
+            acc.outcomes[f"new-after:{name}:{check_new(directory, 'absent', as_path, acc)}"] += 1
+            acc.n["traces"] += 1
+        except core.Violation as v:
+            acc.violation(v.clause, v.sig + ":after-" + name, {"new": "absent", "as_path": as_path, "after": name}, v.detail + f" [process had done: {name}]")
+    acc.sample({"Tdf.new after earlier library activity in the same process": name}, 1)
+    return acc
+
+
 def _shard(cfg_w):
+    if isinstance(cfg_w, tuple) and cfg_w[0] == "after":
+        return _activity_shard(cfg_w[1])
     acc = core.Acc()
     directory = env.scratch_dir("c17")
     if cfg_w == "open":
@@ -348,7 +412,7 @@ def configs(tier):
 
 
 def run(tier):
-    return core.pmap(__name__, "_shard", ["open"] + [c.to_witness() for c in configs(tier)])
+    return core.pmap(__name__, "_shard", ["open"] + [("after", a) for a in ACTIVITIES] + [c.to_witness() for c in configs(tier)])
 
 
 def replay(w):
@@ -362,6 +426,8 @@ def replay(w):
                     return core.Violation(v["clause"], v["sig"], w, v["detail"])
             return None
         if "new" in w:
+            if w.get("after"):
+                _activity(w["after"], directory)
             check_new(directory, w["new"], w["as_path"], acc)
             return None
         cfg = kdriver.Config.from_witness(w["config"])
